@@ -39,7 +39,7 @@ RULES = [
     ("blitter.rs", None, "if mask != 0 && clip != 0", "equivalent: a clip coverage of 1/255 skipped - within the tolerance the statements leave for partial coverage"),
     ("blitter.rs", None, "if x2 <= x1", "equivalent: an empty span adds no coverage"),
     ("blitter.rs", None, "const SUPER_MASK", "geometry: sub-pixel position mask of the coverage accumulation (C01)"),
-    ("blitter.rs", None, "x1 = x1.max(0);", "in-scope: the aliased twin of repair F21 (a span that starts left of the mask); needs the same rare curve overshoot as seeded change C07-r8-1, which the full quick batch reaches only once (run 259245 of 800000) - not reached at a quarter of the budget"),
+    ("blitter.rs", None, "x1 = x1.max(0);", "in-scope: the aliased twin of repair F21 (a span that starts left of the mask); needs the same rare curve overshoot as seeded change C07-r8-1; the C07 paths now include grid-aligned curved slivers, with which it is caught at run 253960 of the quick batch"),
     ("blitter.rs", None, "as usize + 1]", "equivalent: one more spare byte in the coverage buffer"),
     ("blitter.rs", None, "if y % SCALE != 0", "geometry: which of the four sample rows the aliased mode uses (C01)"),
     ("blitter.rs", None, "if y < 0", "equivalent: row 0 clamps to row 0"),
